@@ -64,6 +64,11 @@ func vfC02Build(t *testing.T, rt *rapid.T, rec *kit.Rec, test string) *vfC02Case
 	for i := 0; i < w.excluded13; i++ {
 		rec.Excluded(vfC02SigAtt)
 	}
+	if w.knownStamp {
+		for i := 0; i < w.stamped; i++ {
+			rec.Excluded(vfC02SigStamp)
+		}
+	}
 	nAtt, nMoved := 0, 0
 	for _, d := range w.docs {
 		nAtt += len(d.Atts)
@@ -110,6 +115,7 @@ func (c *vfC02Case) cacheMode(mode string) {
 // runProbe sends one probe as the user and applies the oracle to everything that came back.
 func (c *vfC02Case) runProbe(u *vfC02User, p *vfC02Probe) {
 	w := c.w
+	p.world = w.docs
 	resp := w.send(u.Name, p.Method, p.Path, p.Body, p.Hdr)
 	c.responses++
 	var hdr []string
@@ -127,6 +133,9 @@ func (c *vfC02Case) runProbe(u *vfC02User, p *vfC02Probe) {
 	if p.misKeyed(u) {
 		c.nontrivial = true
 		c.rec.Class("miskeyed:"+p.Label, 1)
+		for _, m := range p.Minor {
+			c.rec.Class("miskeyed-with:"+m, 1)
+		}
 	}
 }
 
@@ -185,8 +194,9 @@ func vfC02Regression13(t *testing.T) (reproduced bool, detail string) {
 			reproduced, detail = false, fmt.Sprintf("panic: %v", r)
 		}
 	}()
-	rt := NewRestTester(t, &RestTesterConfig{SyncFn: vfC02SyncFn, AllowConflicts: true})
+	rt := NewRestTester(t, &RestTesterConfig{SyncFn: vfC02SyncFn})
 	defer rt.Close()
+	rt.GetDatabase().EnableAllowConflicts(t)
 	w := &vfC02World{t: t, rt: rt, ks: rt.GetSingleKeyspace(), dbName: rt.GetDatabase().Name}
 	ds := rt.GetSingleDataStore()
 	if r := w.send("", "PUT", "/"+w.dbName+"/_user/uB", GetUserPayload(t, "", RestTesterDefaultUserPassword, "", ds, []string{"B"}, nil), nil); r.Code != 201 {
@@ -214,14 +224,55 @@ func vfC02Regression13(t *testing.T) (reproduced bool, detail string) {
 	return false, fmt.Sprintf("GET x/att as uB: %d; GET x?attachments=true: %d", r.Code, r2.Code)
 }
 
-func vfC02ReportKnown(t *testing.T) {
-	if !kit.Known("C02", vfC02SigAtt) {
-		return
+// vfC02RegressionStamp executes the minimal reproduction of vfC02SigStamp.
+func vfC02RegressionStamp(t *testing.T) (reproduced bool, detail string) {
+	defer func() {
+		if r := recover(); r != nil {
+			reproduced, detail = false, fmt.Sprintf("panic: %v", r)
+		}
+	}()
+	rt := NewRestTester(t, &RestTesterConfig{SyncFn: vfC02SyncFn})
+	defer rt.Close()
+	rt.GetDatabase().EnableAllowConflicts(t) // only to create the two live branches (legacy data)
+	w := &vfC02World{t: t, rt: rt, ks: rt.GetSingleKeyspace(), dbName: rt.GetDatabase().Name}
+	ds := rt.GetSingleDataStore()
+	if r := w.send("", "PUT", "/"+w.dbName+"/_user/uA", GetUserPayload(t, "", RestTesterDefaultUserPassword, "", ds, []string{"A"}, nil), nil); r.Code != 201 {
+		return false, fmt.Sprintf("create user: %d", r.Code)
 	}
-	if ok, detail := vfC02Regression13(t); ok {
-		kit.KnownFinding("C02", vfC02SigAtt, detail)
-	} else {
-		kit.Note("C02", "listed finding %s did not reproduce: %s", vfC02SigAtt, detail)
+	base := "/" + w.ks
+	if r := w.send("", "POST", base+"/_bulk_docs", `{"new_edits":false,"docs":[{"_id":"x","_rev":"1-bea","_revisions":{"start":1,"ids":["bea"]},"chan":["A"],"m":"in-A"}]}`, nil); r.Code != 201 {
+		return false, fmt.Sprintf("write 1-bea: %d %s", r.Code, r.Body)
+	}
+	if r := w.send("", "POST", base+"/_bulk_docs", `{"new_edits":false,"docs":[{"_id":"x","_rev":"1-5m","_revisions":{"start":1,"ids":["5m"]},"chan":["B"],"m":"SECRET-of-channel-B"}]}`, nil); r.Code != 201 {
+		return false, fmt.Sprintf("write 1-5m: %d %s", r.Code, r.Body)
+	}
+	rt.GetDatabase().Options.AllowConflicts = nil
+	// resolving the conflict the usual way (tombstone the losing branch) is accepted in conflict-free mode too
+	if r := w.send("", "DELETE", base+"/x?rev=1-5m", "", nil); r.Code != 200 {
+		return false, fmt.Sprintf("DELETE x?rev=1-5m: %d %s", r.Code, r.Body)
+	}
+	rt.GetDatabase().FlushRevisionCacheForTest() // any cache miss: eviction, restart, another node
+	r := w.send("uA", "GET", base+"/x?rev=1-5m", "", nil)
+	if r.Code == 200 && strings.Contains(string(r.Body), "SECRET-of-channel-B") {
+		return true, "after DELETE x?rev=1-5m (losing branch, channel B) and a revision-cache miss, GET x?rev=1-5m as uA (channel A only) returns the body of 1-5m"
+	}
+	return false, fmt.Sprintf("GET x?rev=1-5m as uA: %d %s", r.Code, vfC02Clip(string(r.Body), 200))
+}
+
+func vfC02ReportKnown(t *testing.T) {
+	if kit.Known("C02", vfC02SigAtt) {
+		if ok, detail := vfC02Regression13(t); ok {
+			kit.KnownFinding("C02", vfC02SigAtt, detail)
+		} else {
+			kit.Note("C02", "listed finding %s did not reproduce: %s", vfC02SigAtt, detail)
+		}
+	}
+	if kit.Known("C02", vfC02SigStamp) {
+		if ok, detail := vfC02RegressionStamp(t); ok {
+			kit.KnownFinding("C02", vfC02SigStamp, detail)
+		} else {
+			kit.Note("C02", "listed finding %s did not reproduce: %s", vfC02SigStamp, detail)
+		}
 	}
 }
 
@@ -291,9 +342,13 @@ func TestVerif_C02_Blip(t *testing.T) {
 				c.classes = append(c.classes, "blip:"+plan.Proto)
 				rec.Class("blip-rev-messages", int64(s.revs))
 				rec.Class("blip-norev-messages", int64(s.norevs))
+				rec.Class("blip-repeated-rev-for-document", int64(s.repeats))
 				rec.Class("blip-getAttachment-asked", int64(s.attAsked))
 				rec.Class("blip-getAttachment-served", int64(s.attServed))
 				if v := w.judgeBlip(s); v != "" {
+					c.fail("%s\nBLIP session of %s: %s", v, u.Name, plan)
+				}
+				if v := w.missingCurrent(s); v != "" {
 					c.fail("%s\nBLIP session of %s: %s", v, u.Name, plan)
 				}
 				// non-trivial: the user may see some but not all content of a document the pull touched
